@@ -24,7 +24,16 @@ for N in "$@"; do
     echo "$out" > /verif/build/seedrecheck/$N.$c.log
     if [ $rc -eq 1 ]; then res="caught"; echo "RECHECK $N $c $o -> caught"; break; fi
     last="$c $o (exit $rc)"
+    # exit 2 with no obligation selected: the obligation of the old log was renamed or split since; that says nothing about the
+    # seed (run the whole check with tools/seedtest.sh instead) and must not be reported as a miss
+    if [ $rc -eq 2 ] && echo "$out" | grep -q "no obligations selected"; then res="stale-name"; fi
+    if [ $rc -ne 1 ] && echo "$out" | grep -q "^SPURIOUS"; then res="spurious"; fi
   done <<< "$pairs"
-  [ "$res" = "caught" ] || echo "RECHECK $N $last -> MISSED"
+  case "$res" in
+    caught) ;;
+    stale-name) echo "RECHECK $N $last -> stale-name" ;;
+    spurious) echo "RECHECK $N $last -> SPURIOUS" ;;
+    *) echo "RECHECK $N $last -> MISSED" ;;
+  esac
   git -C /repo worktree remove --force $W >/dev/null 2>&1
 done
